@@ -56,6 +56,12 @@ type ScriptCase struct {
 	// Drain: after the script, answer all remaining requests (pick 0) and
 	// expect completion iff the model is done.
 	Drain bool `json:"drain"`
+	// PreStart events are delivered before StartAll, Early events right after
+	// StartAll returned without waiting for the instance to settle. Both must be
+	// events that match no catch event of the program (their effect would
+	// otherwise depend on timing); every delivery must return.
+	PreStart []model.Ev `json:"preStart,omitempty"`
+	Early    []model.Ev `json:"early,omitempty"`
 }
 
 // ScriptOutcome of a scripted run.
@@ -178,8 +184,18 @@ func RunScript(c *ScriptCase) *ScriptOutcome {
 		}
 		return out
 	}
+	earlyDone := make(chan struct{})
 	startDone := make(chan error, 1)
-	go func() { startDone <- in.StartAll() }()
+	go func() {
+		for _, e := range c.PreStart {
+			in.P.ConsumeEvent(toEvent(e))
+		}
+		startDone <- in.StartAll()
+		for _, e := range c.Early {
+			in.P.ConsumeEvent(toEvent(e))
+		}
+		close(earlyDone)
+	}()
 	gs, qerr := in.Quiesce()
 	if qerr != nil {
 		out.Inconcl = qerr.Error()
@@ -191,7 +207,15 @@ func RunScript(c *ScriptCase) *ScriptOutcome {
 			return fail("start-error", e.Error(), gs)
 		}
 	default:
+		if len(c.PreStart) > 0 {
+			return fail("consume-blocked", "an event delivered before StartAll has not returned (or StartAll itself has not) although everything is parked", gs)
+		}
 		return fail("start-blocked", "StartAll has not returned at quiescence", gs)
+	}
+	select {
+	case <-earlyDone:
+	default:
+		return fail("consume-blocked", "an event delivered right after StartAll has not returned although the instance is quiescent", gs)
 	}
 	m := model.New(c.Graph, c.Vars)
 	obs := m.Start()
